@@ -7,7 +7,7 @@ from vf.models.refdevs import OK
 
 PROPERTY = "C04"
 LEVEL = "exploration"
-BUDGET = {"quick": 60000, "thorough": 6000000}
+BUDGET = {"quick": 36000, "thorough": 6000000}
 WALL_CAP = {"quick": 200, "thorough": 3300}
 CHUNK = 250
 RULE = ("layer (a): command sequences issued at quiescence — every sequence of "
